@@ -28,7 +28,7 @@
 #define KLVARR 7      /* T_LVALUE -> local variable holding an array / string / buffer */
 #define KLVSTR 8
 #define KLVBUF 9
-#define KARRM 10      /* array from the real allocator (malloc'd), concrete length LENKi, ref 1 */
+#define KARRM 10      /* array from the real allocator, concrete length LENKi, ref 1..2 (with VERIF_ARRAY_ITEMS: a typed block) */
 #define KLVSELF 11    /* T_LVALUE -> local variable holding the SAME array as operand 0 (x op= x); the array then has ref 2 */
 #define NCODE 12
 #define IN_FIELDS(S,A) A(int64_t, num, 3) A(uint64_t, realbits, 3) A(unsigned, len, 3) A(unsigned char, bytes, 3 * 8) A(int, ref, 3) \
@@ -164,6 +164,10 @@ static void mk_value (int i, int kind)
       {
         array_t *a = allocate_empty_array (n);
         __CPROVER_assume (IN.ref[i] >= 1 && IN.ref[i] <= 2);
+#ifdef REFK
+        /* case split: concrete reference count of malloc'd operand arrays (the jobs together cover 1 and 2) */
+        __CPROVER_assume (IN.ref[i] == (REFK)); IN.ref[i] = (REFK);
+#endif
         if (n > 0) a->ref = (unsigned short) IN.ref[i];      /* 1 = this stack slot is the only holder, 2 = one more holder elsewhere */
         else IN.ref[i] = 0;
         for (k = 0; k < CAP; k++) if (k < n) { a->item[k].type = T_NUMBER; a->item[k].subtype = 0; a->item[k].u.number = IN.elem[i * 4 + k]; }
